@@ -30,6 +30,7 @@ type Case struct {
 	FS   string        `json:"fs"`   // MemFS | OrefaFS | MemFS-win | OrefaFS-win
 	Ops  []fsx.Op      `json:"ops,omitempty"`
 	Conc *conc.Program `json:"conc,omitempty"`
+	Via  []int         `json:"via,omitempty"` // kind "views": which of {instance, view 1, view 2} issues Ops[i]
 }
 
 var kinds = []string{"MemFS", "OrefaFS", "MemFS-win", "OrefaFS-win"}
@@ -406,6 +407,46 @@ func runSeq(c *vt.Ctx, kind string, ops []fsx.Op) *vt.Deviation {
 	return nil
 }
 
+// runViews issues a history on one MemFS tree through the instance itself and through two Sub("/")
+// views of it in turn (the documented way of sharing a tree): the invariants are those of the tree,
+// whoever made the change. Each view has its own handles and working directory.
+func runViews(c *vt.Ctx, ops []fsx.Op, via []int) *vt.Deviation {
+	const kind = "MemFS"
+	v := newFS(kind)
+	vs := []avfs.VFS{v}
+	for i := 0; i < 2; i++ {
+		s, err := v.Sub("/")
+		if err != nil {
+			c.Inconclusive("Sub: " + err.Error())
+			return nil
+		}
+		vs = append(vs, s)
+	}
+	var rs []*fsx.Runner
+	for _, x := range vs {
+		r := fsx.NewRunner(x)
+		defer r.CloseAll()
+		rs = append(rs, r)
+	}
+	snap := snapshot(v, kind, true)
+	cwds := []string{"/", "/", "/"}
+	opened := []map[int]string{{}, {}, {}}
+	for i, o := range ops {
+		w := 0
+		if i < len(via) {
+			w = via[i] % len(vs)
+		}
+		out, after, dev := step(c, v, rs[w], kind, o, snap, cwds[w])
+		if dev != nil {
+			dev.Fields["via"] = fmt.Sprint(w)
+			return dev
+		}
+		snap = after
+		cwds[w] = trackCwd(snap, cwds[w], opened[w], o, out)
+	}
+	return nil
+}
+
 // trackCwd follows the working directory: Chdir to a path, or File.Chdir on a handle whose
 // (physical) path was noted when it was opened.
 func trackCwd(snap fsx.Snap, cwd string, opened map[int]string, o fsx.Op, out fsx.Out) string {
@@ -433,6 +474,8 @@ func TestCheck(t *testing.T) {
 		var dev *vt.Deviation
 		if cs.Kind == "conc" {
 			dev = concDev(c, *cs.Conc, sched.Replay(cs.Conc.Trace))
+		} else if cs.Kind == "views" {
+			dev = runViews(c, cs.Ops, cs.Via)
 		} else {
 			dev = runSeq(c, cs.FS, cs.Ops)
 		}
@@ -516,6 +559,35 @@ func TestCheck(t *testing.T) {
 				}
 				c.NonTrivial(vt.Hash64(parts...))
 				c.Sample("alias-"+kind, map[string]any{"fs": kind, "ops": opStrings(done)})
+			}
+			return nil
+		})
+	}
+
+	// (ii-b) the same histories with the calls spread over the instance and two Sub("/") views of it
+	{
+		cfg := gen.Config{Symlinks: true, Root: true, Base: "/w", NoTemp: true}
+		c.Rapid("views-MemFS", c.Pick(800, 15000), func(t *rapid.T) *vt.Failure {
+			var ops []fsx.Op
+			var via []int
+			used := map[int]bool{}
+			for n := rapid.IntRange(2, c.Pick(25, 50)).Draw(t, "n"); n > 0; n-- {
+				w := rapid.IntRange(0, 2).Draw(t, "via")
+				for _, o := range cfg.Draw(t) {
+					ops, via = append(ops, o), append(via, w)
+				}
+				used[w] = true
+			}
+			if dev := runViews(c, ops, via); dev != nil {
+				return &vt.Failure{Dev: dev, Replay: Case{Kind: "views", FS: "MemFS", Ops: ops, Via: via}}
+			}
+			if len(used) >= 2 {
+				parts := []string{"views", fmt.Sprint(via)}
+				for _, o := range ops {
+					parts = append(parts, o.String())
+				}
+				c.NonTrivial(vt.Hash64(parts...))
+				c.Sample("views-MemFS", map[string]any{"ops": opStrings(ops), "via": via})
 			}
 			return nil
 		})
